@@ -336,6 +336,12 @@ Proof.
 Qed.
 
 (* ------------------------------------------------------------------ _compute = selection on the cell probabilities *)
+Lemma short_axis_false (coords : list (list R)) : Forall (fun c => (2 <= length c)%nat) coords ->
+  existsb (fun c : list R => (length c <? 2)%nat) coords = false.
+Proof.
+  induction 1 as [|c l Hc Hl IH]; simpl; [reflexivity|]. rewrite IH, orb_false_r. apply Nat.ltb_ge. exact Hc.
+Qed.
+
 Section Compute.
   Variable cdfv : nat -> option R -> list R -> list R.
   Variable cond : list (option nat).
@@ -345,11 +351,16 @@ Section Compute.
 
   Definition Rregion := hdc_region R 0 1 (1/2) Rplus Rminus Rmult Rdiv Rleb Rltb Rnan cdfv cond coords deltas alpha.
 
+  Hypothesis axes_two_cells : Forall (fun c => (2 <= length c)%nat) coords.
+
+  Lemma short_axis_never : existsb (fun c : list R => (length c <? 2)%nat) coords = false.
+  Proof. exact (short_axis_false coords axes_two_cells). Qed.
+
   Lemma region_is_selection :
     Rregion = (Rhdr (cell_prob cdfv cond coords deltas) (1 - alpha),
                match Rhdr (cell_prob cdfv cond coords deltas) (1 - alpha) with
                | HdrOk _ pm _ => fm_of R Rdiv pm deltas | _ => 0 end).
-  Proof. unfold Rregion, hdc_region. rewrite Rnan_never. reflexivity. Qed.
+  Proof. unfold Rregion, hdc_region. rewrite short_axis_never, Rnan_never. reflexivity. Qed.
 
   Lemma region_ok m pm fm : nonnegR (cell_prob cdfv cond coords deltas) -> Rregion = (HdrOk m pm false, fm) ->
     exists sel, Rcbu (cell_prob cdfv cond coords deltas) (1 - alpha) = CbuOk sel pm false /\
@@ -376,6 +387,17 @@ Section Compute.
     apply (Rmult_eq_reg_r (prodR deltas)); [|exact P]. rewrite E. lra.
   Qed.
 End Compute.
+
+(* an axis with fewer than two cells: IndexError (cell_averaged_pdf reads coords[d][1]) *)
+Lemma region_short_axis cdfv cond coords deltas alpha :
+  Exists (fun c : list R => (length c < 2)%nat) coords ->
+  Rregion cdfv cond coords deltas alpha = (HdrIndexError, 0).
+Proof.
+  intros H. unfold Rregion, hdc_region.
+  assert (E : existsb (fun c : list R => (length c <? 2)%nat) coords = true).
+  { apply existsb_exists. apply Exists_exists in H. destruct H as [c [Hin Hc]]. exists c. split; auto. apply Nat.ltb_lt. exact Hc. }
+  rewrite E. reflexivity.
+Qed.
 
 (* ------------------------------------------------------------------ an equidistant grid has the cell size as spacing *)
 Definition Rgrid (start delta : R) (n : nat) : list R := map (fun i => start + INR i * delta) (seq 0 n).
